@@ -650,6 +650,7 @@ func (e *engine) runGroup(gi int, byID map[int]*Prog) []candidate {
 		for _, x := range sets[mode] {
 			if x != nil && x.noRef > 0 {
 				e.r.Add("programs_without_baseline_result", int64(x.noRef))
+				e.r.Capped(fmt.Sprintf("%d programs (%s mode) gave no baseline result in their batch run and were not compared", x.noRef, mode))
 			}
 		}
 
@@ -1108,6 +1109,10 @@ func (e *engine) confirm(cands []candidate, byID map[int]*Prog) {
 	e.r.Set("disagreements_confirmed_fresh", confirmed)
 	e.r.Set("disagreements_unstable_or_cut", unstable)
 
+	if unstable > 0 {
+		e.r.Capped(fmt.Sprintf("%d fresh confirmations were cut by the watchdog or did not repeat: inconclusive", unstable))
+	}
+
 	// What did not reproduce alone: solo candidates are dropped (a leak
 	// between batch items), packed ones are confirmed with their whole file.
 	var packed []candidate
@@ -1358,6 +1363,7 @@ func (e *engine) confirmPacked(cands []candidate, byID map[int]*Prog) {
 
 			if !ok1 || !ok2 || !ok3 || !ok4 {
 				e.r.Add("packed_file_confirmations_cut", 1)
+				e.r.Capped("a packed-file confirmation was cut by the watchdog: inconclusive")
 
 				return
 			}
